@@ -79,9 +79,27 @@ def struct(e, defaults_ok=True):
             tuple(struct(c) for c in e))
 
 
-def list_with_attrs(xsd):
-    """input-only predicate: the schema extends the list type `ints` into a simple-content type (with attributes)."""
-    return 'base="t:ints"' in xsd or 'base="ints"' in xsd
+def list_with_attrs(xsd, doc=None):
+    """input-only predicate: the schema extends the list type `ints` into a simple-content type (with attributes) AND
+    the document has a run of same-named leaf siblings in which an occurrence other than the last carries an attribute
+    (the shape the dictionary converters decode irregularly)."""
+    if not ('base="t:ints"' in xsd or 'base="ints"' in xsd):
+        return False
+    if doc is None:
+        return True
+    root = ET.fromstring(doc)
+    for parent in root.iter():
+        kids = list(parent)
+        i = 0
+        while i < len(kids):
+            j = i
+            while j + 1 < len(kids) and kids[j + 1].tag == kids[i].tag:
+                j += 1
+            if j > i and not len(kids[i]) and any(
+                    any(not a.startswith('{%s}' % XSI) for a in k.attrib) for k in kids[i:j]):
+                return True
+            i = j + 1
+    return False
 
 
 def nsmap_for(g):
@@ -202,7 +220,11 @@ def tpl_doc(rnd):
         parts.append('<p:w>%s</p:w>' % ''.join(inner))
     if rnd.random() < .5:
         parts.append('<p:w1>%s</p:w1>' % el(rnd.choice(['gl', 'mi', 'gc'])))
-    return '<p:root xmlns:p="urn:t">%s</p:root>' % ''.join(parts)
+    doc = '<p:root xmlns:p="urn:t">%s</p:root>' % ''.join(parts)
+    if rnd.random() < .5:
+        # the same document under a default namespace declaration
+        doc = doc.replace('<p:', '<').replace('</p:', '</').replace('xmlns:p=', 'xmlns=')
+    return doc
 
 
 # ------------------------------------------------------------------------------------ (b) mutations
@@ -353,7 +375,7 @@ def run_shard(desc):
             st_.sample({'template doc': doc[:300]}, cap=2)
             recs = []
             for name, conv, kw in LOSSLESS + DICT + [('Unordered', xmlschema.UnorderedConverter, {})]:
-                if 'p:one' in doc or 'p:w' in doc:
+                if 'one>' in doc or 'w>' in doc:
                     st_.nt((doc, name))
                 # several global elements: the element to encode is named by path (the data key of some converters
                 # is not a path, e.g. GData's p$root)
@@ -385,7 +407,7 @@ def run_shard(desc):
             if ntv:
                 st_.nt((g.xsd(), doc, name))
             recs += roundtrip(s, g, doc, name, conv, kw, st_, 'lossless', rcl)
-        lcl = ['list-simple-content-with-attributes'] if list_with_attrs(g.xsd()) else []
+        lcl = ['list-simple-content-with-attributes'] if list_with_attrs(g.xsd(), doc) else []
         for name, conv, kw in DICT:
             if cont and not mixed and sp:
                 # same-named siblings written with different prefixes are different dictionary keys: not contiguous
@@ -429,7 +451,7 @@ def replay(record):
                              enc_kw=dict(path='p:root', namespaces={'p': 'urn:t'}))
         elif record['kind'].startswith('roundtrip'):
             rcl = ['nil-on-list-type'] if ('nil=' in doc and 'itemType' in xsd) else []
-            if inp.get('label') == 'dict/contiguous' and list_with_attrs(xsd):
+            if inp.get('label') == 'dict/contiguous' and list_with_attrs(xsd, doc):
                 rcl.append('list-simple-content-with-attributes')
             recs = roundtrip(s, G, doc, name, CONV[name], {}, st, inp.get('label', ''), rcl)
         else:
